@@ -147,3 +147,24 @@ Theorem C05_check_preproc_indent_ok_or_attribute_error : forall toks glob pinden
   (exists E, check_preproc_indent toks glob pindent = Ok E) \/ check_preproc_indent toks glob pindent = Crash AttributeError.
 Proof. exact ppi_ok_or_attribute_error. Qed.
 Print Assumptions C05_check_preproc_indent_ok_or_attribute_error.
+
+(* ---- CheckPreprocessorInclude / CheckPreprocessorDefine (Gen/PreprocChecks2.v): each ends normally or raises AttributeError, or runs
+   on - and that only when its unbounded loop `while not check_token(i, T): i += 1` has no exit: no MORE_THAN (no RPARENTHESIS) token
+   at any later position (IsPreprocessorStatement rejects such lines before the checks run: tested) *)
+From NV Require Import Model.PreprocBase2 Gen.PreprocChecks2 Proofs.PreprocProofs2.
+Theorem C05_check_preproc_include_outcome : forall toks hist allowed,
+  okp (more_pos toks (inc_name_pos toks) = None) (check_preproc_include toks hist allowed).
+Proof. exact ppn_outcome. Qed.
+Print Assumptions C05_check_preproc_include_outcome.
+Theorem C05_check_preproc_include_hang_means_unclosed : forall toks i1, 0 <= file_pos toks i1 -> more_pos toks i1 = None ->
+  forall j, file_pos toks i1 <= j -> truthy (check1 toks j ppn_more) = false.
+Proof. exact more_pos_none. Qed.
+Print Assumptions C05_check_preproc_include_hang_means_unclosed.
+Theorem C05_check_preproc_define_outcome : forall toks skip,
+  okp (rpar_pos toks (def_name_pos toks + 1) = None) (check_preproc_define toks skip).
+Proof. exact ppd_outcome. Qed.
+Print Assumptions C05_check_preproc_define_outcome.
+Theorem C05_check_preproc_define_hang_means_unclosed : forall toks i3, 0 <= i3 -> rpar_pos toks i3 = None ->
+  forall j, i3 <= j -> truthy (check1 toks j ppd_rpar) = false.
+Proof. exact rpar_pos_none. Qed.
+Print Assumptions C05_check_preproc_define_hang_means_unclosed.
